@@ -345,4 +345,131 @@ def readerContour (cs ds : List Pt) (has : List Bool) (first last : Nat) :
         | some a, some b => readerPoint cs ds a b k
         | _, _ => readerPoint cs ds l f k
 
+/-! ## reader side, loop-faithful: skrifa `interpolate_deltas::<i32, Fixed>` with its 16.16
+arithmetic (`Fixed` add/sub wrap, `Mul`/`Div` round as in font-types).  Working points are raw
+`Fixed` bits. -/
+
+/-- one `Jiggler` call made by `interpolate_deltas`: `interpolate(lo ..= hi, RefPoints(r1, r2))`,
+or `shift(lo ..= hi, r1)` when `shift` is set -/
+structure Call where
+  lo : Nat
+  hi : Nat
+  r1 : Nat
+  r2 : Nat
+  shift : Bool
+deriving Repr, DecidableEq
+
+/-- `while point_ix <= end_point_ix && !flags.get(point_ix)?.has_marker(HAS_DELTA) { point_ix += 1 }`;
+`none` = the `?` fired (index beyond the `np` points). -/
+def scanFirst (has : List Bool) (np last : Nat) : Nat → Nat → Option Nat
+  | 0, p => some p
+  | f + 1, p =>
+    if p ≤ last then
+      if p ≥ np then none
+      else if has.getD p false then some p
+      else scanFirst has np last f (p + 1)
+    else some p
+
+/-- the `while point_ix <= end_point_ix { if has(point_ix) { interpolate(cur+1 ..= point_ix-1,
+(cur, point_ix)); cur = point_ix } point_ix += 1 }` loop: the calls made and the final
+`cur_delta_ix`. -/
+def innerLoop (has : List Bool) (np last : Nat) : Nat → Nat → Nat → List Call → Option (List Call × Nat)
+  | 0, _, cur, calls => some (calls, cur)
+  | f + 1, p, cur, calls =>
+    if p ≤ last then
+      if p ≥ np then none
+      else if has.getD p false then
+        innerLoop has np last f (p + 1) p (calls ++ [⟨cur + 1, p - 1, cur, p, false⟩])
+      else innerLoop has np last f (p + 1) cur calls
+    else some (calls, cur)
+
+/-- the body of `for &end_point_ix in contours` for one contour starting at `point_ix = first`:
+the calls made and the new `point_ix`. -/
+def readerContourCalls (has : List Bool) (np first last : Nat) : Option (List Call × Nat) :=
+  match scanFirst has np last (last + 2 - first) first with
+  | none => none
+  | some fd =>
+    if fd > last then some ([], fd)          -- no deltas in this contour (or `first > last`)
+    else
+      match innerLoop has np last (last + 1 - fd) (fd + 1) fd [] with
+      | none => none
+      | some (calls, cur) =>
+        if cur = fd then some (calls ++ [⟨first, last, cur, cur, true⟩], last + 1)
+        else
+          some (calls ++ [⟨cur + 1, last, cur, fd, false⟩] ++
+            (if fd > 0 then [⟨first, fd - 1, cur, fd, false⟩] else []), last + 1)
+
+/-- all calls of `interpolate_deltas`, contour after contour -/
+def readerCalls (has : List Bool) (np : Nat) : List Nat → Nat → List Call → Option (List Call)
+  | [], _, acc => some acc
+  | e :: ends, p, acc =>
+    match readerContourCalls has np p e with
+    | none => none
+    | some (calls, p') => readerCalls has np ends p' (acc ++ calls)
+
+def fxAdd (a b : Int) : Int := wrapI32 (a + b)
+def fxSub (a b : Int) : Int := wrapI32 (a - b)
+def fxFromI32 (i : Int) : Int := wrapI32 (i * 65536)
+/-- `impl Mul for Fixed` -/
+def fxMul (a b : Int) : Int :=
+  let ab := a * b
+  wrapI32 ((ab + 32768 - (if ab < 0 then 1 else 0)) / 65536)
+/-- `impl Div for Fixed` -/
+def fxDiv (a b : Int) : Int :=
+  let ua := iabs a
+  let ub := iabs b
+  let neg := (a < 0) != (b < 0)
+  let q := if ub = 0 then 2147483647 else wrapU32 ((ua * 65536 + ub / 2) / ub)
+  if neg then wrapI32 (-(wrapI32 q)) else wrapI32 q
+
+/-- one axis of `Jiggler::interpolate` (the `interp_coord!` macro) for the point with original
+coordinate `c` and current working value `old`; `p1`/`p2` are the original coordinates of
+`RefPoints(r1, r2)`, `o1`/`o2` their working values. -/
+def fxInterpAxis (p1 o1 p2 o2 c old : Int) : Int :=
+  -- `if points[ref1] > points[ref2] { swap }` compares the unconverted coordinates
+  let sw := decide (p1 > p2)
+  let in1 := fxFromI32 (if sw then p2 else p1)
+  let in2 := fxFromI32 (if sw then p1 else p2)
+  let out1 := if sw then o2 else o1
+  let out2 := if sw then o1 else o2
+  if in1 ≠ in2 ∨ out1 = out2 then
+    let scale := if in1 ≠ in2 then fxDiv (fxSub out2 out1) (fxSub in2 in1) else 0
+    let d1 := fxSub out1 in1
+    let d2 := fxSub out2 in2
+    let out := fxFromI32 c
+    if out ≤ in1 then fxAdd out d1
+    else if out ≥ in2 then fxAdd out d2
+    else fxAdd out1 (fxMul (fxSub out in1) scale)
+  else old
+
+/-- apply one call to the working points -/
+def applyCall (pts out : List Pt) (c : Call) : List Pt :=
+  if c.hi < c.lo then out else
+  let p1 := getP pts c.r1
+  let p2 := getP pts c.r2
+  let o1 := getP out c.r1
+  let o2 := getP out c.r2
+  if c.shift then
+    let dx := fxSub o1.1 (fxFromI32 p1.1)
+    let dy := fxSub o1.2 (fxFromI32 p1.2)
+    if dx = 0 ∧ dy = 0 then out else
+    (List.range out.length).map fun k =>
+      let o := getP out k
+      if c.lo ≤ k ∧ k ≤ c.hi ∧ k ≠ c.r1 then (fxAdd o.1 dx, fxAdd o.2 dy) else o
+  else
+    (List.range out.length).map fun k =>
+      let o := getP out k
+      if c.lo ≤ k ∧ k ≤ c.hi then
+        (fxInterpAxis p1.1 o1.1 p2.1 o2.1 (getP pts k).1 o.1,
+         fxInterpAxis p1.2 o1.2 p2.2 o2.2 (getP pts k).2 o.2)
+      else o
+
+/-- `interpolate_deltas(points, flags, contours, out_points)`: the final working points, or `none`
+when the function returns `None`. -/
+def readerInterpolate (pts : List Pt) (has : List Bool) (ends : List Nat) (out : List Pt) :
+    Option (List Pt) :=
+  match readerCalls has pts.length ends 0 [] with
+  | none => none
+  | some calls => some (calls.foldl (applyCall pts) out)
+
 end FontVerif.Iup
